@@ -125,6 +125,18 @@ theorem truncate_refines {O : Nat → Prop} {c : Cfg} {f : File} {e : Env} (sz :
   obtain ⟨h1, h2, _⟩ := truncate_content_ok (O := O) sz hss hP hok hres
   exact ⟨h2, h1⟩
 
+/-- the configuration never changes -/
+theorem run_cfg : ∀ (ops : List (Op × Oracle)) (s : State), (run s ops).cfg = s.cfg := by
+  intro ops
+  induction ops with
+  | nil => intro s; rfl
+  | cons x xs ih =>
+    intro s
+    show (run (step s x.1 x.2).1 xs).cfg = s.cfg
+    rw [ih]
+    unfold step
+    cases x.1 <;> dsimp only <;> (try split) <;> (try rw [finish_fst]) <;> rfl
+
 /-- which file an operation works on. -/
 def opTarget : Op → Option Nat
   | .new _ _ => none
